@@ -212,9 +212,11 @@ def run(read, write, degraded):
     # clock accuracy is compared by its octet
     acc = strip_comments(read("statime/src/datastructures/common/clock_accuracy.rs"))
     ab = fn_body(acc, "cmp_numeric")
-    numeric = bool(ab and re.fullmatch(r"\s*self\.to_primitive\(\)\.cmp\(&other\.to_primitive\(\)\)\s*", ab))
-    if not numeric: degraded.append("cmp-accuracy-numeric")
-    L.append("def accuracyComparedByOctet : Bool := " + ("true" if numeric else "false"))
+    abq = re.sub(r"\s+", "", ab or "")
+    numeric = {"self.to_primitive().cmp(&other.to_primitive())": "some true",
+               "other.to_primitive().cmp(&self.to_primitive())": "some false"}.get(abq, "none")
+    if numeric == "none": degraded.append("cmp-accuracy-numeric")
+    L.append("def accuracyComparedByOctet : Option Bool := " + numeric)
 
     # --- compare_same_identity
     b = fn_body(src, "compare_same_identity")
